@@ -82,7 +82,7 @@ def check(prop, tier, spec):
             if r is None:
                 skipped += 1
                 continue
-            if r["crash"] == "harness":
+            if r["crash"] in ("harness", "hang"):
                 skipped += 1
                 continue
             bad = None
